@@ -181,7 +181,8 @@ func Corpus() *Program {
 		fld("SecretList", 7, KString, list()),
 		fld("One", 8, KMessage, ref("NamedLeaf")),
 		fld("Other", 9, KMessage, ref("NamedLeaf"), nonNull()),
-		fld("str_list", 10, KString, list()))
+		fld("str_list", 10, KString, list()),
+		fld("Dashed", 11, KInt64, jsonTag("-")), fld("DashedOmit", 12, KString, jsonTag("-,omitempty")), fld("DashLeaf", 13, KMessage, ref("Leaf"), jsonTag("dash-leaf")))
 
 	// attribute names that coincide with names the generated code uses internally (map entry fields,
 	// the placeholder, container members), next to maps and lists of messages
@@ -194,6 +195,18 @@ func Corpus() *Program {
 		fld("elems", 6, KMessage, ref("Leaf"), list()),
 		fld("attrs", 7, KString, mapOf()),
 		fld("unknown", 8, KBool), fld("null", 9, KString))
+
+	// oneof groups with a single branch (message, field-less message, scalar), also promoted from a
+	// by-value embedded message
+	msg("EmbSingle", []string{"OnlyEmb"},
+		fld("EsStr", 1, KString), fld("EsOnly", 2, KMessage, ref("Leaf"), oneof("OnlyEmb")))
+	msg("Singles", []string{"OnlyMsg", "only_empty", "OnlyStr"},
+		fld("SLabel", 1, KString),
+		fld("SMsg", 2, KMessage, ref("Mid"), oneof("OnlyMsg")),
+		fld("SEmpty", 3, KMessage, ref("Empty"), oneof("only_empty")),
+		fld("SStr", 4, KString, oneof("OnlyStr")),
+		fld("EmbSingle", 5, KMessage, ref("EmbSingle"), embed(), nonNull()),
+		fld("SItems", 6, KMessage, ref("EmbSingle"), list()))
 
 	msg("Empties", []string{"Pick"},
 		fld("Label", 1, KString),
@@ -213,7 +226,7 @@ func Corpus() *Program {
 
 	p.Config = Config{
 		Types: []string{"Scalars", "Temporal", "Collections", "Nesting", "Oneofs", "Embedding", "EmbedOneof",
-			"EmbedDeep", "Naming", "Empties", "Sink", "DeepNest", "Interleave", "Collide",
+			"EmbedDeep", "Naming", "Empties", "Sink", "DeepNest", "Interleave", "Collide", "Singles",
 			"Leaf", "Mid", "WithOneof", "EmbedTwo"}, // selected types that also occur nested inside other selected types
 		DurationCustomType: DurationCastName,
 		TimeType:           SimTimeType,
